@@ -1,7 +1,8 @@
 (* C09 — a complete line always gets a verdict; the parser cannot stall the connection.
    `safe i` is the property's own lexical framing rule (Thm_Crlf.v): scan to CRLF; if the line ends
    in "{n}" skip n bytes and continue. *)
-From TI Require Import Bytes Grammar Nom Interp InterpFacts Thm_Crlf Natives Proofs_C09.
+From TI Require Import Bytes Grammar Nom Interp InterpFacts Thm_Crlf Thm_Line Natives Proofs_C09.
+Local Open Scope N_scope.
 From TI.gen Require Import ImapGrammar.
 
 (* reflection obligation over the regenerated grammar: no class, tag or char admits CR except the
@@ -32,3 +33,30 @@ Check c09_generic : forall (natf : string -> list val -> ares) (env : N -> optio
   (forall f g, env f = Some g -> if is_tail f then tailok is_tail g = true else all_nodes (node_inner is_tail) g = true) ->
   forall fuel g dp, tailok is_tail g = true -> forall i, safe i -> run natf env bound fuel g dp i <> RInc.
 Print Assumptions c09_generic.
+
+(* second clause: an accepted response whose first line does not end in "}" (no literal can continue it) ends
+   exactly at the first CRLF of the buffer -- the rest is everything behind that CRLF, the consumed length is the
+   line plus two.  `split_crlf` is the framer's scan for the first CR LF pair. *)
+Theorem c09_strict_tail_discipline : sdefs_ok 0 all_defs = true.
+Proof. exact strict_tail_holds. Qed.
+Check c09_strict_tail_discipline : sdefs_ok 0 all_defs = true.
+Print Assumptions c09_strict_tail_discipline.
+
+Theorem c09_accepted_line_ends_at_first_crlf : forall i a after r v u,
+  split_crlf i = Some (a, after) -> ends_brace a = false -> parse i = ROk r v u -> r = after /\ u = nlen a + 2.
+Proof. exact accepted_line_ends_at_first_crlf_lemma. Qed.
+Check c09_accepted_line_ends_at_first_crlf : forall i a after r v u,
+  split_crlf i = Some (a, after) -> ends_brace a = false -> parse i = ROk r v u -> r = after /\ u = nlen a + 2.
+Print Assumptions c09_accepted_line_ends_at_first_crlf.
+
+(* the generic theorem, for any grammar in strict tail form and any actions *)
+Theorem c09_generic_first_crlf : forall (natf : string -> list val -> ares) (env : N -> option G) (bound : nat) (is_tail : N -> bool),
+  (forall f g, env f = Some g -> if is_tail f then stail is_tail g = true else all_nodes (node_inner is_tail) g = true) ->
+  forall fuel g dp, stail is_tail g = true -> forall i a after r v u, split_crlf i = Some (a, after) -> ends_brace a = false ->
+    run natf env bound fuel g dp i = ROk r v u -> r = after /\ u = nlen a + 2.
+Proof. exact accepted_line_ends_at_first_crlf. Qed.
+Check c09_generic_first_crlf : forall (natf : string -> list val -> ares) (env : N -> option G) (bound : nat) (is_tail : N -> bool),
+  (forall f g, env f = Some g -> if is_tail f then stail is_tail g = true else all_nodes (node_inner is_tail) g = true) ->
+  forall fuel g dp, stail is_tail g = true -> forall i a after r v u, split_crlf i = Some (a, after) -> ends_brace a = false ->
+    run natf env bound fuel g dp i = ROk r v u -> r = after /\ u = nlen a + 2.
+Print Assumptions c09_generic_first_crlf.
